@@ -485,3 +485,64 @@ Proof.
 Qed.
 
 End Doc.
+
+(* ---- C14 at document.render: texts A, B and J whose lines are those of A followed by those of B ---- *)
+From Rimu Require Import FuelMono.
+
+Lemma prefix_run_fuel_le fuel doc n rd s o rdk sk n' : prefix_run fuel doc n rd s o rdk sk n' -> (n' <= n)%nat.
+Proof. induction 1; lia. Qed.
+
+Theorem parts_equal_whole_render n tA tB tJ s o rdk sk n' outB sB :
+  mk_reader tJ = mk_reader tA ++ mk_reader tB ->
+  prefix_run n (doc_render n) n (mk_reader tA) s o rdk sk n' -> rdk <> [] -> all_blank rdk ->
+  doc_loop n (doc_render n) n' (mk_reader tB) sk = Ok (outB, sB) ->
+  doc_render (S n) tA s = Ok (o, sk) /\ doc_render (S n) tB sk = Ok (outB, sB) /\ doc_render (S n) tJ s = Ok (o ++ outB, sB).
+Proof.
+  intros HJ Hrun Hne Hb HB.
+  destruct (parts_equal_whole n (doc_render n) n (mk_reader tA) (mk_reader tB) s o rdk sk n' Hrun Hne Hb) as [EA EJ].
+  assert (Hn' : exists k, n' = S k) by (destruct n' as [|k]; [discriminate HB|eauto]). destruct Hn' as (k & ->).
+  split; [|split].
+  - change (doc_render (S n) tA) with (doc_loop n (doc_render n) n (mk_reader tA)). rewrite EA. cbn [doc_loop skipBlankLines then_loop ret].
+    rewrite app_nil_r. reflexivity.
+  - change (doc_render (S n) tB) with (doc_loop n (doc_render n) n (mk_reader tB)).
+    pose proof (prefix_run_fuel_le _ _ _ _ _ _ _ _ _ Hrun) as Hle.
+    destruct (mono_doc_loop n n (Nat.le_refl n) (doc_render n) (doc_render n) (fun t => mle_refl _) (S k) n (mk_reader tB) Hle sk) as [E|E].
+    + rewrite HB in E. discriminate.
+    + rewrite <- E. exact HB.
+  - change (doc_render (S n) tJ) with (doc_loop n (doc_render n) n (mk_reader tJ)). rewrite HJ, EJ, HB. reflexivity.
+Qed.
+
+From Rimu Require Import Lines.
+
+Lemma split_aux_join b : forall a cur, (forall x, In x a -> x <> 13) ->
+  split_lines_aux (a ++ 10 :: b) cur = split_lines_aux a cur ++ split_lines_aux b [].
+Proof.
+  induction a as [|x a IH]; intros cur H; [reflexivity|].
+  assert (Hx : x <> 13) by (apply H; left; reflexivity).
+  assert (Ha : forall y, In y a -> y <> 13) by (intros y Hy; apply H; right; exact Hy).
+  destruct (N.eq_dec x 10) as [->|H10].
+  - cbn [app split_lines_aux]. rewrite (IH [] Ha). reflexivity.
+  - assert (E1 : split_lines_aux ((x :: a) ++ 10 :: b) cur = split_lines_aux (a ++ 10 :: b) (x :: cur)).
+    { cbn [app split_lines_aux]. destruct x as [|px]; [reflexivity|].
+      destruct px as [[[|[]|]|[[]|[]|]|]|[[|[]|]|[]|]|]; try reflexivity; congruence. }
+    assert (E2 : split_lines_aux (x :: a) cur = split_lines_aux a (x :: cur)).
+    { cbn [split_lines_aux]. destruct x as [|px]; [reflexivity|].
+      destruct px as [[[|[]|]|[[]|[]|]|]|[[|[]|]|[]|]|]; try reflexivity; congruence. }
+    rewrite E1, E2. apply IH. exact Ha.
+Qed.
+
+Lemma mk_reader_join a b : (forall x, In x a -> x <> 13) -> mk_reader (a ++ 10 :: b) = mk_reader a ++ mk_reader b.
+Proof.
+  intros H. rewrite !mk_reader_spec. unfold blank_reserved. rewrite map_app. cbn [map].
+  replace (if (10 =? 0) || (10 =? 1) || (10 =? 2) then 32 else 10) with 10 by reflexivity.
+  unfold split_lines. apply split_aux_join.
+  intros x Hx. apply in_map_iff in Hx as (y & Ey & Hy).
+  destruct ((y =? 0) || (y =? 1) || (y =? 2)); [subst x; discriminate|subst x; apply H; exact Hy].
+Qed.
+
+Theorem parts_equal_whole_text n tA tB s o rdk sk n' outB sB : (forall x, In x tA -> x <> 13) ->
+  prefix_run n (doc_render n) n (mk_reader tA) s o rdk sk n' -> rdk <> [] -> all_blank rdk ->
+  doc_loop n (doc_render n) n' (mk_reader tB) sk = Ok (outB, sB) ->
+  doc_render (S n) tA s = Ok (o, sk) /\ doc_render (S n) tB sk = Ok (outB, sB) /\
+  doc_render (S n) (tA ++ 10 :: tB) s = Ok (o ++ outB, sB).
+Proof. intros H13. apply parts_equal_whole_render. apply mk_reader_join. exact H13. Qed.
